@@ -218,12 +218,15 @@ impl<'de> serde::de::Visitor<'de> for CfgFileVisitor {
 
         let extensions = extensions.unwrap_or_default();
 
+        // the default locale is a locale even when it is not listed in `locales`
+        let is_locale = |key: &Key| locales.contains(key) || key == &default;
+
         for (k, v) in &extensions {
-            if !locales.contains(k) {
+            if !is_locale(k) {
                 return Err(serde::de::Error::custom(format!("unknown locale {:?}", k)));
             }
 
-            if !locales.contains(v) {
+            if !is_locale(v) {
                 return Err(serde::de::Error::custom(format!("unknown locale {:?}", v)));
             }
         }
